@@ -73,7 +73,15 @@ func famPubKeyParse(k *mon.Case) {
 	k.Desc(map[string]any{"family": "pubkey.parse", "key": hx(enc)})
 
 	want, rerr := refec.ParsePubKey(enc)
-	got, err := btcec.ParsePubKey(enc)
+	encBuf := append([]byte{}, enc...)
+	got, err := btcec.ParsePubKey(encBuf)
+	if !bytes.Equal(encBuf, enc) {
+		k.Failf("aliasing:btcec.ParsePubKey:caller-input-modified:key", "before=%x after=%x", enc, encBuf)
+	}
+	scramble(encBuf) // a key object that retained the caller's buffer now differs from the reference point
+	if again, err2 := btcec.ParsePubKey(enc); (err2 == nil) != (err == nil) || (err == nil && !again.IsEqual(got)) {
+		k.Failf("pubkey:ParsePubKey:not-idempotent", "key=%x err=%v second err=%v", enc, err, err2)
+	}
 	cls := "ok"
 	if rerr != nil {
 		cls = map[error]string{refec.ErrKeyLength: "length", refec.ErrKeyFormat: "prefix", refec.ErrKeyRange: "coordinate-ge-p",
@@ -146,8 +154,13 @@ func famECDH(k *mon.Case) {
 		k.Failf("pubkey:ParsePubKey:rejects-valid-key", "P1=%x P2=%x err=%v %v", P1.Uncompressed(), P2.Uncompressed(), err1, err2)
 		return
 	}
+	g := (&inputGuard{}).priv("private_key1", p1).priv("private_key2", p2).pub("public_key1", pub1).pub("public_key2", pub2)
 	s12 := btcec.GenerateSharedSecret(p1, pub2)
 	s21 := btcec.GenerateSharedSecret(p2, pub1)
+	if again := btcec.GenerateSharedSecret(p1, pub2); !bytes.Equal(again, s12) {
+		k.Failf("ecdh:GenerateSharedSecret:not-idempotent", "d1=%x d2=%x first=%x second=%x", d1, d2, s12, again)
+	}
+	g.check(k, "btcec.GenerateSharedSecret")
 	want := refec.Mul(d1, P2)
 	if !bytes.Equal(s12, s21) {
 		k.Failf("ecdh:GenerateSharedSecret:asymmetric", "d1=%x d2=%x s12=%x s21=%x", d1, d2, s12, s21)
